@@ -335,33 +335,27 @@ def parseCovChecked (C : Codec K) (n : Nat) (d : CovDoc) : Except Err (Cov K) :=
     | none => .error .badCovMat
 
 /-- an observation of `<obs>` as export_xml writes it in gons / in degrees (DisplayObservationVisitor: angular values
-    through gon2deg, their standard deviations `* scale`) -/
+    through `gon2deg(m, 0, 4)`, their standard deviations `* scale`, scale = 0.324 — REGENERATED `visStdevScaled`) -/
 def exportObsU (C : Codec K) (gons : Bool) (cf : String) (o : Obs K) : Elem × Attrs :=
   if gons || !o.kind.angular then exportObs C.toNumFmt true cf o
-  else
-    let e := exportObs C.toNumFmt true cf { o with stdev := C.toSec o.stdev }
-    (e.1, e.2.map (fun a => if a.1 = Attr.val then (a.1, C.fmtDeg o.val) else a))
+  else exportObsV C.toNumFmt true cf { o with stdev := if visStdevScaled then C.toSec o.stdev else o.stdev } (C.fmtDeg o.val)
 
 /-- the constructor argument that takes the value -/
 def valDest (k : Kind) : Dest := .ctor (if k = .angle then 3 else 2)
 
-/-- deg2gon applied to the `val` string of an angular observation -/
-def degOf (C : Codec K) (e : Elem) (k : Kind) (a : Attr × String) : Option K :=
-  if k.angular && route e a.1 == some (valDest k) then C.rdDeg a.2 else none
-
-def degSubst (C : Codec K) (e : Elem) (k : Kind) (a : Attr × String) : Attr × String :=
-  match degOf C e k a with
-  | some x => (a.1, C.fmt x)
-  | none => a
-
 /-- the `val` string of an angular observation goes through deg2gon first (`if (deg2gon(sm, dm)) degrees = true; else
-    toDouble(sm, dm)`); the flag is `DB_pair::second`.  (XML has no duplicate attributes: at most one `val`.) -/
+    toDouble(sm, dm)`); the other kinds use `toDouble` only -/
+def rdValU (C : Codec K) (k : Kind) (t : String) : Option K :=
+  if k.angular && parserTriesDeg2gon then (match C.rdDeg t with | some x => some x | none => C.rd t) else C.rd t
+
+/-- `DB_pair::second`: the value was given as a sexagesimal string -/
+def isDegVal (C : Codec K) (k : Kind) (as : Attrs) : Bool :=
+  k.angular && parserTriesDeg2gon && ((reach k.elem (valDest k) as).bind C.rdDeg).isSome
+
 def parseElemU (C : Codec K) (impl : Kind → K) (cf : String) (cdh : K) (ea : Elem × Attrs) : Except Err (Obs K × Bool) :=
   match kindOf ea.1 with
   | none => .error .illegalElement
-  | some k =>
-    (parseObs C.toNumFmt cf cdh (impl k) k (ea.2.map (degSubst C ea.1 k))).map
-      (fun o => (o, ea.2.any (fun a => (degOf C ea.1 k a).isSome)))
+  | some k => (parseObsV C.toNumFmt (rdValU C k) cf cdh (impl k) k ea.2).map (fun o => (o, isDegVal C k ea.2))
 
 def sattr (as : SAttrs) (n : String) : Option String := ((as.filter (fun a => a.1 == n)).getLast?).map (·.2)
 
@@ -457,7 +451,7 @@ def parseItem (C : Codec K) (impl : Kind → K) (par : Params K) (s : PState K) 
         | .error e => .error e
         | .ok ofs =>
           let fl := flagOf (ofs.map (·.2))
-          let obs := ofs.map (fun of => if of.2 then { of.1 with stdev := C.fromSec of.1.stdev } else of.1)
+          let obs := ofs.map (fun of => if of.2 && parserScalesSeconds then { of.1 with stdev := C.fromSec of.1.stdev } else of.1)
           match cov with
           | none => .ok { s with clusters := s.clusters ++ [.obs ⟨station, obs⟩ none] }
           | some d =>
@@ -465,7 +459,7 @@ def parseItem (C : Codec K) (impl : Kind → K) (par : Params K) (s : PState K) 
             | .error e => .error e
             | .ok c => .ok { s with clusters := s.clusters ++
                               [.obs ⟨station, obs⟩ (if c.band == 0 then none
-                                                     else some (if ofs.any (·.2) then scaleCov C.fromSec fl c else c))] }
+                                                     else some (if ofs.any (·.2) && parserScalesSeconds then scaleCov C.fromSec fl c else c))] }
       | _, _ => .error .badNumber
   | .hdiffs els cov =>
     if els.any (fun ea => ea.1 ≠ Elem.dh) then .error .illegalElement
